@@ -1,5 +1,6 @@
 import PytezosModel.Proofs.InterpSound
 import PytezosModel.Proofs.InterpRefine
+set_option linter.unusedSectionVars false   -- `[Mode]` is a section variable of every lemma here; some do not use it
 /-! Type soundness (preservation) of the reference semantics: a typed program run on a well-formed stack of the
 right types leaves a well-formed stack whose runtime types are the statically assigned ones. -/
 namespace Interp
